@@ -45,26 +45,28 @@ func runCase(t *testing.T, p *world.PKI, sc scen, seed uint64) run.Outcome {
 	return o
 }
 
-func variant(name string) checks.Variant {
+func variant(name string) *checks.Variant {
 	for _, v := range checks.Variants13() {
 		if v.Name == name {
-			return v
+			return &v
 		}
 	}
 	panic("no variant " + name)
 }
 
-func withSuite(v checks.Variant, name string, id dtls.CipherSuiteID) checks.Variant {
+func withSuite(base *checks.Variant, name string, id dtls.CipherSuiteID) *checks.Variant {
+	v := *base
 	v.Name += "+" + name
 	v.C.Suites = []dtls.CipherSuiteID{id}
 	v.S.Suites = []dtls.CipherSuiteID{id}
-	return v
+	return &v
 }
 
-func withCID(v checks.Variant) checks.Variant {
+func withCID(base *checks.Variant) *checks.Variant {
+	v := *base
 	v.Name += "+cid4"
 	v.C.CIDLen, v.S.CIDLen = 4, 4
-	return v
+	return &v
 }
 
 // sequences returns every operation sequence of length 1..max.
@@ -159,21 +161,22 @@ type bounds struct {
 	ReplayLen int
 }
 
-func enumerate(thorough bool) ([]scen, bounds) {
-	base := variant("13-direct")
-	b := bounds{SeqLen1: 3, SeqLen2: 1, SeqLen0: 3, Gaps: []int{0, 1, 2}, ForgeLen: 2, ReplayLen: 2}
-	acts1, acts2 := quickActs, quickActs
+func boundsFor(thorough bool) bounds {
 	if thorough {
-		b = bounds{SeqLen1: 4, SeqLen2: 3, SeqLen0: 5, Gaps: []int{0, 1, 2, 3}, ForgeLen: 3, ReplayLen: 3}
-		acts1 = checks.AllFaultActions
+		return bounds{SeqLen1: 4, SeqLen2: 3, SeqLen0: 5, Gaps: []int{0, 1, 2, 3}, ForgeLen: 3, ReplayLen: 3}
 	}
-	var out []scen
-	seen := map[string]bool{}
-	add := func(s scen) {
-		if id := s.id(); !seen[id] {
-			seen[id] = true
-			out = append(out, s)
-		}
+	return bounds{SeqLen1: 3, SeqLen2: 2, SeqLen0: 3, Gaps: []int{0, 1, 2}, ForgeLen: 2, ReplayLen: 2}
+}
+
+// enumerate calls add for every scenario of the tier, in a fixed order; every scenario has a distinct id
+// by construction (the families are disjoint).
+func enumerate(thorough bool, add func(s scen)) {
+	base := variant("13-direct")
+	b := boundsFor(thorough)
+	acts1 := quickActs
+	lossDup := []world.Action{world.ActDrop, world.ActDup}
+	if thorough {
+		acts1 = checks.AllFaultActions
 	}
 	// A. operation sequences x overlap x <=1 deviation
 	for _, ops := range sequences(b.SeqLen1) {
@@ -186,26 +189,31 @@ func enumerate(thorough bool) ([]scen, bounds) {
 			}
 		}
 	}
-	// B. <=2 deviations (the longest sequences with loss and duplication only)
+	// B. exactly 2 deviations (the longest sequences of the tier with loss and duplication only)
 	for _, ops := range sequences(b.SeqLen2) {
 		if !hasU(ops) {
 			continue
 		}
-		acts, extra := acts2, 2
-		if len(ops) >= 3 {
-			acts, extra = []world.Action{world.ActDrop, world.ActDup}, 1
+		acts, extra := quickActs, 2
+		if len(ops) >= b.SeqLen2 && len(ops) > 1 {
+			acts, extra = lossDup, 1
 		}
 		for _, g := range b.Gaps {
 			if len(ops) == 1 && g != 0 {
 				continue
 			}
 			for _, m := range masksFor(ops, 2, acts, extra) {
-				add(scen{V: base, Ops: ops, Gap: g, Mask: m})
+				if len(m) == 2 {
+					add(scen{V: base, Ops: ops, Gap: g, Mask: m})
+				}
 			}
 		}
 	}
 	// C. longer sequences, fault-free schedule (all overlaps)
 	for _, ops := range sequences(b.SeqLen0) {
+		if len(ops) <= b.SeqLen1 {
+			continue
+		}
 		for _, g := range b.Gaps {
 			add(scen{V: base, Ops: ops, Gap: g})
 		}
@@ -243,7 +251,7 @@ func enumerate(thorough bool) ([]scen, bounds) {
 		}
 	}
 	// F. other configurations: connection IDs, other suites
-	others := []checks.Variant{withCID(base)}
+	others := []*checks.Variant{withCID(base)}
 	otherLen := 2
 	if thorough {
 		others = append(others,
@@ -278,7 +286,6 @@ func enumerate(thorough bool) ([]scen, bounds) {
 			}
 		}
 	}
-	return out, b
 }
 
 // staticAuth is the read generation `to` has authorised after ops ran sequentially: one per KeyUpdate the
@@ -299,14 +306,44 @@ func staticAuth(ops []opKind, to side) int {
 func TestC20(t *testing.T) {
 	env := run.GetEnv()
 	p := world.GetPKI(t)
-	scens, b := enumerate(env.Thorough())
-	cases := make([]run.Case, 0, len(scens))
-	for _, sc := range scens {
-		sc := sc
-		cases = append(cases, run.Case{ID: sc.id(), Run: func(t *testing.T) run.Outcome { return runCase(t, p, sc, env.Seed) }})
-	}
+	b := boundsFor(env.Thorough())
+	total := 0
+	enumerate(env.Thorough(), func(scen) { total++ })
+	// Only the cases of this worker's shard are materialised (the list has several 10^5 entries in the
+	// thorough tier and a large live heap slows every collection); the others keep their index as zero
+	// entries, which run.Main never touches.
+	cases := make([]run.Case, total)
+	idx := 0
+	enumerate(env.Thorough(), func(sc scen) {
+		i := idx
+		idx++
+		switch {
+		case env.Only != "":
+			if sc.id() != env.Only {
+				return
+			}
+		case i%env.NShards != env.Shard || i < env.From:
+			return
+		}
+		cases[i] = run.Case{ID: sc.id(), Run: func(t *testing.T) run.Outcome { return runCase(t, p, sc, env.Seed) }}
+	})
 	run.Main(t, "C20", cases, map[string]any{
 		"alphabet": opNames[:], "seq_len_1dev": b.SeqLen1, "seq_len_2dev": b.SeqLen2, "seq_len_0dev": b.SeqLen0,
-		"overlaps": b.Gaps, "forge_len": b.ForgeLen, "replay_len": b.ReplayLen, "scenarios": len(scens),
+		"overlaps": b.Gaps, "forge_len": b.ForgeLen, "replay_len": b.ReplayLen, "scenarios": total,
 	})
+}
+
+// TestC20IDs checks that the enumeration yields pairwise distinct case ids (run by hand).
+func TestC20IDs(t *testing.T) {
+	for _, th := range []bool{false, true} {
+		seen := map[string]bool{}
+		enumerate(th, func(s scen) {
+			if id := s.id(); seen[id] {
+				t.Fatalf("duplicate case id %s", id)
+			} else {
+				seen[id] = true
+			}
+		})
+		t.Logf("thorough=%v: %d distinct cases", th, len(seen))
+	}
 }
